@@ -43,12 +43,14 @@ func (c *fctx) stdMethod(call *ast.CallExpr) (string, ast.Expr) {
 
 func (c *fctx) isSpecialCall(call *ast.CallExpr) bool {
 	switch c.pkgFunc(call) {
-	case "bytes.NewReader", "bufio.NewReader", "io.ReadFull", "encoding/binary.Write", "sort.Slice":
+	case "bytes.NewReader", "bufio.NewReader", "io.ReadFull", "encoding/binary.Write", "sort.Slice",
+		"crypto/rand.Read", "crypto/aes.NewCipher", "crypto/cipher.NewCBCEncrypter", "crypto/cipher.NewCBCDecrypter":
 		return true
 	}
 	m, _ := c.stdMethod(call)
 	switch m {
-	case "math/big.Int.Exp", "math/big.Int.Bytes", "math/big.Int.SetUint64", "math/big.Int.SetBytes", "math/big.Int.SetString":
+	case "math/big.Int.Exp", "math/big.Int.Bytes", "math/big.Int.SetUint64", "math/big.Int.SetBytes", "math/big.Int.SetString",
+		"crypto/cipher.BlockMode.CryptBlocks":
 		return true
 	case "bytes.Buffer.Bytes", "bytes.Buffer.Write", "bufio.Reader.ReadByte", "bytes.Reader.ReadByte",
 		"hash.Hash.Write", "hash.Hash.Sum", "hash.Hash.Reset", "hash.Hash.Size":
@@ -113,6 +115,10 @@ func (c *fctx) specialCallExpr(call *ast.CallExpr) (string, bool) {
 		return c.expr(call.Args[0]), true
 	case "crypto/hmac.New":
 		return "(Go.Mac.new " + c.hashNumber(call.Args[0]) + " " + c.expr(call.Args[1]) + ")", true
+	case "crypto/cipher.NewCBCEncrypter":
+		return c.bindM("", "Go.newCbc true "+c.expr(call.Args[0])+" "+c.expr(call.Args[1])), true
+	case "crypto/cipher.NewCBCDecrypter":
+		return c.bindM("", "Go.newCbc false "+c.expr(call.Args[0])+" "+c.expr(call.Args[1])), true
 	}
 	m, recv := c.stdMethod(call)
 	switch m {
@@ -218,7 +224,36 @@ func (c *fctx) specialAssign(s *ast.AssignStmt) bool {
 		return true
 	}
 	switch c.pkgFunc(call) {
-	case "io.ReadFull":
+	case "crypto/aes.NewCipher":
+		if len(s.Lhs) != 2 {
+			c.fail(s, "NewCipher results")
+		}
+		t := c.fresh("ac")
+		c.letPure(t, "", "Go.aesNewCipher "+c.expr(call.Args[0]))
+		c.lvalSet(s.Lhs[0], t+".1")
+		c.lvalSet(s.Lhs[1], c.errFromEnum(t+".2"))
+		return true
+	case "crypto/rand.Read", "io.ReadFull":
+		bufArg := call.Args[len(call.Args)-1]
+		if c.pkgFunc(call) == "crypto/rand.Read" || c.isRandReader(call.Args[0]) {
+			if len(s.Lhs) != 2 {
+				c.fail(s, "Read results")
+			}
+			if !c.fi.usesRand {
+				c.fail(s, "random source outside the pre-pass")
+			}
+			t := c.fresh("rf")
+			c.letPure(t, "", "Go.randFill rnd_ "+c.expr(bufArg))
+			c.letPure("rnd_", "Rand", t+".1")
+			c.lvalSet(bufArg, t+".2.1")
+			if v := c.natVarOf(s.Lhs[0]); v != nil {
+				c.lvalSet(s.Lhs[0], t+".2.2.1")
+			} else {
+				c.lvalSet(s.Lhs[0], "("+t+".2.2.1 : Int)")
+			}
+			c.lvalSet(s.Lhs[1], c.errFromEnum(t+".2.2.2"))
+			return true
+		}
 		if len(s.Lhs) != 2 {
 			c.fail(s, "ReadFull results")
 		}
@@ -246,6 +281,15 @@ func (c *fctx) specialAssign(s *ast.AssignStmt) bool {
 	return false
 }
 
+func (c *fctx) isRandReader(e ast.Expr) bool {
+	sel, ok := e.(*ast.SelectorExpr)
+	if !ok || sel.Sel.Name != "Reader" {
+		return false
+	}
+	p, ok := c.isPkgIdent(sel.X)
+	return ok && p == "crypto/rand"
+}
+
 func (c *fctx) checkBigEndian(e ast.Expr) {
 	if sel, ok := e.(*ast.SelectorExpr); ok {
 		if p, ok := c.isPkgIdent(sel.X); ok && p == "encoding/binary" && sel.Sel.Name == "BigEndian" {
@@ -264,6 +308,17 @@ func (c *fctx) specialCallStmt(call *ast.CallExpr) bool {
 		return true
 	} else if m == "hash.Hash.Reset" {
 		c.lvalSet(recv, "(Go.Mac.reset "+c.expr(recv)+")")
+		return true
+	}
+	if m, recv := c.stdMethod(call); m == "crypto/cipher.BlockMode.CryptBlocks" {
+		// mode.CryptBlocks(dst, src): the result is written to the front of dst
+		c.fi.usesPrims = true
+		base, lo, hi := c.window(call.Args[0])
+		c.requireOwned(base)
+		b := c.expr(base)
+		src := c.expr(call.Args[1])
+		t := c.bindM("", fmt.Sprintf("Go.cryptBlocks P %s (%s - %s) %s", c.expr(recv), hi, lo, src))
+		c.lvalSet(base, fmt.Sprintf("(Go.splice %s %s %s)", b, lo, t))
 		return true
 	}
 	switch c.pkgFunc(call) {
